@@ -23,7 +23,7 @@ CONSTANTS L,          \* max number of tag-level fragments
           InitCfgs,   \* "default" | "four" (all settings of cen/aue/eee/tmn) | "trim"
           Emit
 
-TagFrags == { <<60,97,62>>, <<60,47,97,62>>, <<60,47,97,32,62>>, <<60,47,32,97,62>>, <<60,47,97,12,62>>,      \* ... </a > </ a> </a FF>
+TagFrags == { <<60,97,62>>, <<60,47,97,62>>, <<60,47,97,32,62>>, <<60,47,32,97,62>>, <<60,47,97,12,62>>, <<60,47,32,62>>,      \* ... </a > </ a> </a FF> </ >
               <<60,97,98,62>>, <<60,47,97,98,62>>,
               <<60,98,62>>, <<60,47,98,62>>, <<60,97,47,62>>, <<120>>, <<32>>,
               <<60,33,45,45,60,47,97,62,45,45,62>>,                 \* <!--</a>-->
